@@ -176,29 +176,81 @@ Proof.
   apply named_keys_nodup. unfold IF.distinct. apply NoDup_nodup.
 Qed.
 
-Lemma effective_imports_dupes : Permutation (U.effective_imports DP) (U.imports DP).
+(* the same for the bare-tag imports (commit 4a102aa: put-if-absent by path); an alias is never the empty
+   string (strings.Fields yields no empty field: [tags_aliases_nonempty] for the tags of real files) *)
+Definition aliases_nonempty : Prop := forall p a, In (p, a) (IF.named_tags tags) -> a <> EmptyString.
+
+Definition root_keys (ps : list (string * string)) : list (string * string) :=
+  map ikey (filter (fun i => negb (U.named i)) (map dimport_of (flat_map of_pair ps))).
+
+Lemma root_keys_cons : forall pa ps, exists pre, root_keys (pa :: ps) = pre ++ root_keys ps /\ (pre = [] \/ (pre = [pa] /\ snd pa = EmptyString)).
 Proof.
-  unfold U.effective_imports, U.named_imports, U.root_imports.
-  rewrite (dedup_id _ dupes_named_nodup). apply UF.filter_partition_perm.
+  intros [p a] ps. unfold root_keys, of_pair; simpl. destruct (world dir p) as [[n pk]|]; simpl.
+  - unfold U.named at 1; simpl. destruct (U.is_empty a) eqn:E; simpl.
+    + exists [(p, a)]. unfold ikey; simpl. split; [reflexivity|]. right. split; [reflexivity|]. now apply UF.is_empty_true.
+    + exists []. auto.
+  - exists []. auto.
+Qed.
+
+Lemma root_keys_in : forall ps k, In k (root_keys ps) -> In k ps /\ snd k = EmptyString.
+Proof.
+  induction ps as [|pa ps IH]; intros k H; [destruct H|].
+  destruct (root_keys_cons pa ps) as (pre & E & [->|[-> S]]); rewrite E in H; simpl in H.
+  - destruct (IH k H). split; [right|]; auto.
+  - destruct H as [<-|H]; [split; [left; reflexivity | exact S]|]. destruct (IH k H). split; [right|]; auto.
+Qed.
+
+Lemma root_keys_nodup : forall ps, NoDup ps -> NoDup (root_keys ps).
+Proof.
+  induction ps as [|pa ps IH]; intros H; [constructor|].
+  inversion H as [|? ? Hn Hd]; subst.
+  destruct (root_keys_cons pa ps) as (pre & E & [->|[-> _]]); rewrite E; simpl; [auto|].
+  constructor; [|auto]. intro K. apply Hn. now apply root_keys_in.
+Qed.
+
+Lemma root_keys_app : forall a b, root_keys (a ++ b) = root_keys a ++ root_keys b.
+Proof. intros. unfold root_keys. now rewrite flat_map_app, map_app, filter_app, map_app. Qed.
+
+Lemma root_keys_named : aliases_nonempty -> root_keys (IF.distinct (IF.named_tags tags)) = [].
+Proof.
+  intro NE. destruct (root_keys (IF.distinct (IF.named_tags tags))) as [|[p a] r] eqn:E; [reflexivity|].
+  assert (H : In (p, a) (root_keys (IF.distinct (IF.named_tags tags)))) by (rewrite E; now left).
+  apply root_keys_in in H. destruct H as [H S]. simpl in S. subst a.
+  unfold IF.distinct in H. apply nodup_In in H. exfalso. now apply (NE p EmptyString).
+Qed.
+
+Lemma dupes_roots_nodup : aliases_nonempty -> NoDup (map ikey (U.root_imports_before_4a102aa DP)).
+Proof.
+  intro NE. unfold U.root_imports_before_4a102aa, dupes_of, cimports_of; simpl.
+  change (NoDup (root_keys (IF.distinct (IF.named_tags tags) ++ map (fun p => (p, EmptyString)) (IF.root_tags tags)))).
+  rewrite root_keys_app, (root_keys_named NE). simpl. apply root_keys_nodup.
+  apply FinFun.Injective_map_NoDup; [intros x y E; now inversion E|].
+  unfold IF.root_tags. apply NoDup_nodup.
+Qed.
+
+Lemma effective_imports_dupes : aliases_nonempty -> Permutation (U.effective_imports DP) (U.imports DP).
+Proof.
+  intro NE. unfold U.effective_imports, U.named_imports, U.root_imports.
+  rewrite (dedup_id _ dupes_named_nodup), (dedup_id _ (dupes_roots_nodup NE)). apply UF.filter_partition_perm.
 Qed.
 
 (* C04's list of names of the template data is a permutation of the runnable names C07 speaks about *)
-Theorem names_are_runnable_names : alias_keys_distinct lpk ->
+Theorem names_are_runnable_names : aliases_nonempty -> alias_keys_distinct lpk ->
   Permutation (map D.tname (DS.targets INFO) ++ map fst (D.aliases INFO)) (U.runnable_names DP).
 Proof.
-  intro AK. unfold U.runnable_names. apply Permutation_app.
+  intros NE AK. unfold U.runnable_names. apply Permutation_app.
   - rewrite target_names_commute. apply Permutation_map. unfold U.src_funcs.
-    apply Permutation_app_head, UF.flat_map_perm. symmetry. apply effective_imports_dupes.
+    apply Permutation_app_head, UF.flat_map_perm. symmetry. now apply effective_imports_dupes.
   - rewrite aliases_commute, map_map. simpl.
     symmetry. apply UF.alias_keys_literal.
     unfold dupes_of; simpl. rewrite map_map. exact AK.
 Qed.
 
 (* ------------------------------------------------------------------ (2) acceptance discharges C04's premise *)
-Theorem accepted_no_collision_decls : alias_keys_distinct lpk ->
+Theorem accepted_no_collision_decls : aliases_nonempty -> alias_keys_distinct lpk ->
   U.mage_accepts DP = true -> DS.no_collision INFO.
 Proof.
-  intros AK H. unfold DS.no_collision.
+  intros NE AK H. unfold DS.no_collision.
   pose proof (C07.C07_collision_rejected _ H) as N.
   eapply Permutation_NoDup; [|exact N]. symmetry.
   replace (map (fun t => D.lower (D.tname t)) (DS.targets INFO) ++ map (fun a => D.lower (fst a)) (D.aliases INFO))
@@ -208,10 +260,10 @@ Proof.
 Qed.
 
 (* and nothing more: for a package with non-empty function names the check rejects only data that is not collision-free *)
-Theorem no_collision_decls_accepted : alias_keys_distinct lpk -> U.wf_pkg DP ->
+Theorem no_collision_decls_accepted : aliases_nonempty -> alias_keys_distinct lpk -> U.wf_pkg DP ->
   DS.no_collision INFO -> U.mage_accepts DP = true.
 Proof.
-  intros AK W H. apply C07.C07_no_false_rejection; [exact W|].
+  intros NE AK W H. apply C07.C07_no_false_rejection; [exact W|].
   unfold DS.no_collision in H.
   eapply Permutation_NoDup; [|exact H].
   replace (map (fun t => D.lower (D.tname t)) (DS.targets INFO) ++ map (fun a => D.lower (fst a)) (D.aliases INFO))
@@ -259,7 +311,7 @@ Variable conv : D.argty -> string -> option string.
 Variable fails : nat -> list D.value -> bool.
 Variable env : string.
 
-Theorem runs : alias_keys_distinct lpk -> U.mage_accepts DP = true ->
+Theorem runs : aliases_nonempty -> alias_keys_distinct lpk -> U.mage_accepts DP = true ->
   forall w pk d t args rest, exposes w pk d t ->
   List.length args = List.length (nonctx_types d) ->
   (forall k ty x, nth_error (nonctx_types d) k = Some (pty_back ty) -> nth_error args k = Some x -> D.convert conv ty x <> None) ->
@@ -269,8 +321,8 @@ Theorem runs : alias_keys_distinct lpk -> U.mage_accepts DP = true ->
     (forall k ty x, nth_error (nonctx_types d) k = Some (pty_back ty) -> nth_error args k = Some x ->
                     nth_error vs k = D.convert conv ty x).
 Proof.
-  intros AK ACC w pk d t args rest E L Cv.
-  pose proof (accepted_no_collision_decls AK ACC) as NC.
+  intros NE AK ACC w pk d t args rest E L Cv.
+  pose proof (accepted_no_collision_decls NE AK ACC) as NC.
   pose proof (exposed_resolves _ _ _ _ E) as R.
   destruct E as [d f H _ | d f k g H _ _ _ | p t n pk d f _ _ H _].
   - destruct (words_converted_by_declaration (def_of EmptyString) conv fails env INFO lpk d f w args rest H NC R L Cv)
@@ -282,17 +334,33 @@ Proof.
 Qed.
 
 (* the word at the name position in another letter case, further words after it: same run *)
-Theorem runs_any_case : alias_keys_distinct lpk -> U.mage_accepts DP = true ->
+Theorem runs_any_case : aliases_nonempty -> alias_keys_distinct lpk -> U.mage_accepts DP = true ->
   forall w w' tail, D.lower w = D.lower w' ->
   D.dispatch conv fails INFO env (w :: tail) = D.dispatch conv fails INFO env (w' :: tail).
 Proof.
-  intros AK ACC w w' tail L.
-  pose proof (accepted_no_collision_decls AK ACC) as NC.
+  intros NE AK ACC w w' tail L.
+  pose proof (accepted_no_collision_decls NE AK ACC) as NC.
   apply (Dispatch_facts.case_insensitive conv fails INFO env [] [] w w' tail NC); [constructor | constructor | exact L].
 Qed.
 End Run.
 End Names.
 End World.
+
+(* the tags of real import specs never carry an empty alias *)
+Lemma line_shape_alias_nonempty : forall l a, IF.line_shape l = Some (Some a) -> a <> EmptyString.
+Proof.
+  intros l a H. unfold IF.line_shape in H. pose proof (IF.line_words_nonempty l) as NE.
+  destruct (IF.line_words l) as [|w [|a' [|b r]]]; try discriminate. inversion H; subst.
+  intro Z. subst. specialize (NE EmptyString). simpl in NE. discriminate NE. auto.
+Qed.
+
+Lemma tags_aliases_nonempty : forall files, aliases_nonempty (IF.tags files).
+Proof.
+  intros files p a H. apply IF.named_in_tags in H. unfold IF.tags in H. apply in_map_iff in H.
+  destruct H as (s & E & _). injection E as _ T. unfold IF.tag_rule in T.
+  destruct (IF.import_line_of (I.is_doc s)) as [l|]; [now apply (line_shape_alias_nonempty l)|].
+  destruct (IF.import_line_of (I.is_comment s)) as [l|]; [now apply (line_shape_alias_nonempty l)|discriminate].
+Qed.
 
 (* ------------------------------------------------------------------ non-vacuity *)
 (* the magefile package: C06's example declarations (BuildAll(ctx, a, b string, int) (err error); the
@@ -335,10 +403,11 @@ Proof.
   assert (AK : alias_keys_distinct ex_lpk).
   { unfold alias_keys_distinct. vm_compute. repeat constructor; simpl; intuition discriminate. }
   split; [exact AK|]. split; [vm_compute; reflexivity|].
-  split; [apply accepted_no_collision_decls; [exact AK | vm_compute; reflexivity]|].
+  split; [apply accepted_no_collision_decls; [apply tags_aliases_nonempty | exact AK | vm_compute; reflexivity]|].
   split; [vm_compute; reflexivity|]. split; [vm_compute; reflexivity|]. split; [vm_compute; reflexivity|].
   intro H. apply no_collision_decls_accepted in H.
   - vm_compute in H. discriminate.
+  - apply tags_aliases_nonempty.
   - unfold alias_keys_distinct. vm_compute. repeat constructor; simpl; intuition discriminate.
   - intros f Hf. vm_compute in Hf. repeat (destruct Hf as [<-|Hf]; [discriminate|]). destruct Hf.
 Qed.
